@@ -90,7 +90,7 @@ def run(module_file, cfg_text, *, tag="tlc", workers=16, timeout=900, extra_file
         mod = module_name or os.path.splitext(os.path.basename(module_file))[0]
         with open(os.path.join(wd, mod + ".cfg"), "w") as fh:
             fh.write(cfg_text)
-        cmd = ["java", "-XX:+UseParallelGC", "-Xmx" + heap]
+        cmd = ["java", "-XX:+UseParallelGC", "-Xss64m", "-Xmx" + heap]
         if dfs:
             cmd.append("-Dtlc2.tool.queue.IStateQueue=StateDeque")
         cmd += ["-cp", JAR + ":" + DEPS, "tlc2.TLC", "-workers", str(workers), "-metadir", os.path.join(wd, "meta"),
